@@ -230,6 +230,27 @@ def gen_watch(rng, rig):
 RES = 'TTTFNBR'
 
 
+def gen_sc_history(rng):
+    """state that only a LATER call observes: one or more bad runs (hang past check_timeout, raise, non-bool,
+    cancelled caller), then the dependency recovers and later calls arrive after the TTL"""
+    ttl = rng.choice([0, 1, 8, 40])
+    tmo = rng.choice([1, 8, 8, 80])
+    bad = [[-2, 'T'], [tmo + 1, 'T'], [tmo, 'F'], [tmo * 3, 'N'], [1, 'R'], [0, 'B'], [-1, 'R'], [3, 'T']]
+    good = [[-1, 'T'], [0, 'T'], [1, 'T'], [max(tmo - 1, 0), 'T'], [-1, 'F'], [1, 'N']]
+    nbad = rng.choice([1, 1, 2, 3])
+    script = [list(rng.choice(bad)) for _ in range(nbad)] + [list(rng.choice(good)) for _ in range(6)]
+    events, t = [], 0
+    for j in range(nbad + rng.choice([1, 2, 4])):
+        events.append([t, 'call'])
+        if j < nbad and rng.random() < 0.25:
+            events.append([t + rng.choice([0, 1, max(tmo - 1, 0)]), 'cancel', len([e for e in events if e[1] == 'call']) - 1])
+        if rng.random() < 0.3:
+            events.append([t + rng.choice([0, 1, tmo]), 'call'])
+        t += tmo + ttl + rng.choice([0, 0, 1, 5])
+    events.sort(key=lambda e: e[0])
+    return {'op': 'sc', 'ttl': ttl, 'tmo': tmo, 'horizon': t + 3 * tmo + ttl + 20, 'script': script, 'events': events}
+
+
 def gen_sc(rng):
     ttl = rng.choice([0, 1, 8, 40, 240])
     tmo = rng.choice([0, 1, 8, 8, 80, 80])
@@ -276,11 +297,14 @@ def gen_churn(rng, rig):
         else:
             ttl = rng.choice([4, 8, 24])
             tmo = rng.choice([8, 16])
-            phases = [[0, rng.choice(RES)]]
+            phases = [[0, rng.choice(RES + 'H')]]
             t = 0
             for _ in range(rng.choice([1, 2, 4])):
                 t += rng.choice([1, 5, ttl, 2 * ttl + 3, 40])
-                phases.append([t, rng.choice(RES)])
+                phases.append([t, rng.choice(RES + 'HH')])
+            if rng.random() < 0.5:                  # the dependency recovers in the end
+                t += rng.choice([1, ttl, 40])
+                phases.append([t, rng.choice('TTN')])
             t_end = max(t_end, t)
             checks.append({'ttl': ttl, 'tmo': tmo, 'dur': rng.choice([-1, -1, 0, 1, 3]), 'phases': phases})
     cfg = [[1, list(range(nchecks))]]
@@ -506,6 +530,24 @@ def values_at(cv, t):
     return {value_at(cv, t - 1)} | {x for e, x in cv if e == t}
 
 
+def must_run(call_times, log, ttl, tmo):
+    """Histories, judged without the model: a __check__ call that arrives when no run of the function is in
+    flight and no completed run is younger than check_ttl must START the function (whatever happened in
+    earlier runs: time-outs, exceptions, cancellations leave no state behind).  Returns the call times at
+    which no run started although one was due."""
+    if tmo <= 0:
+        return []
+    missing = []
+    for t in call_times:
+        # a run that ends in the very instant of the call may have ended after it: no claim then
+        in_flight = any(s <= t and (e is None or e > t or (e == t and s < t)) for s, e, _ in log)
+        fresh = any(e is not None and e <= t and t - e < ttl and
+                    (how in ('ret', 'raise') or (how == 'cancelled' and e == s + tmo)) for s, e, how in log)
+        if not in_flight and not fresh and not any(s == t for s, _, _ in log):
+            missing.append(t)
+    return missing
+
+
 def oracle_sc(res, case, impl):
     ttl, tmo = case['ttl'], case['tmo']
     log = impl['log']
@@ -514,6 +556,11 @@ def oracle_sc(res, case, impl):
     if tmo <= 0:
         cv = None
     calls = [e for e in case['events'] if e[1] == 'call']
+    miss = must_run([e[0] for e in calls], log, ttl, tmo)
+    if miss:
+        fail(res, case, 'the check function was not run for the call(s) at t=%r although no run was in flight and the '
+             'cached result (if any) was older than check_ttl: earlier runs left state behind' % (miss[:3],),
+             {'kind': 'sc-not-run'}, {'callers': impl['callers'], 'log': log})
     for i, (ev, out) in enumerate(zip(calls, impl['callers'])):
         p = out.split(':')
         if p[0] == 'pending':
@@ -598,7 +645,8 @@ def oracle_churn(res, case, out):
         if 'status' in spec:
             final.append(spec['status'])
         else:
-            final.append(value_after('ret' if spec['phases'][-1][1] != 'R' else 'raise', spec['phases'][-1][1]))
+            last = spec['phases'][-1][1]
+            final.append(0 if last == 'H' else value_after('ret' if last != 'R' else 'raise', last))
     for k, ((name, gone), sent) in enumerate(zip(churn_watchers(case), out['sent'])):
         if gone:
             continue
@@ -997,6 +1045,8 @@ def run(ctx):
         cases.append(gen_watch(rng, 'e2e'))
     for _ in range(ctx.n(3000, 80000)):
         cases.append(gen_sc(rng))
+    for _ in range(ctx.n(800, 20000)):
+        cases.append(gen_sc_history(rng))
     for _ in range(ctx.n(200, 5000)):
         cases.append(gen_sce2e(rng))
     for _ in range(ctx.n(150, 3000)):
